@@ -6,7 +6,7 @@ Core Lean only (linked into `pbmodel_descviews`).
 Conventions
 * A Go `map[K]V` that is only ever written by `lazyInit` and read by `m[k]` is a partial function
   `K → Option V` (nobody iterates these maps, so no order is needed); `m[k] = v` is `set`, the
-  guarded `if _, ok := m[k]; !ok { m[k] = v }` is `setIfAbsent`.
+  guarded `if _, ok := m[k]; !ok { m[k] = v }` is `setIfAbsent` (every `lazyInit` table is of this kind).
 * The generated lists store `&p.List[i]`; pointer identity is the index, so the tables hold `Nat`.
 * `protoreflect.FieldNumber`/`EnumNumber` are `int32`; they are `Int` here, and the one place where
   the code does int32 arithmetic (`fieldRange.End() = r[1] - 1`) goes through `wrap32`.
@@ -65,25 +65,28 @@ def fieldHas (rs : List Rng) (n : Int) : Bool := bsearch fieldEnd n (sortByStart
 
 /-- The loop of `CheckValid` over the sorted copy. `prev = none` is `i == 0` (the Go code guards the
 overlap clause with `&& i > 0`); `okNum` is the per-end-point validity test (`isValidFieldNumber`,
-constantly true for enums). Returns `true` for a nil error. -/
-def checkLoop (endOf : Rng → Int) (okNum : Int → Bool) : Option Rng → List Rng → Bool
+constantly true for enums); `okRng` is the non-emptiness clause (`r.Start() <= r.End()` for enums,
+`r[0] < r[1]` on the stored pair for fields). Returns `true` for a nil error. -/
+def checkLoop (endOf : Rng → Int) (okNum : Int → Bool) (okRng : Rng → Bool) : Option Rng → List Rng → Bool
   | _, [] => true
   | prev, r :: rest =>
     if !okNum r.start then false
     else if !okNum (endOf r) then false
-    else if !(decide (r.start ≤ endOf r)) then false
+    else if !okRng r then false
     else if (match prev with | none => false | some rp => !(decide (endOf rp < r.start))) then false
-    else checkLoop endOf okNum (some r) rest
+    else checkLoop endOf okNum okRng (some r) rest
 
+/-- `EnumRanges.CheckValid`: `case !(r.Start() <= r.End())`. -/
 def enumCheckValid (rs : List Rng) : Bool :=
-  checkLoop enumEnd (fun _ => true) none (sortByStart rs)
+  checkLoop enumEnd (fun _ => true) (fun r => decide (r.start ≤ enumEnd r)) none (sortByStart rs)
 
 /-- `isValidFieldNumber(n, isMessageSet)`: `MinValidNumber <= n && (n <= MaxValidNumber || isMessageSet)`. -/
 def isValidFieldNumber (isMessageSet : Bool) (n : Int) : Bool :=
   decide (1 ≤ n) && (decide (n ≤ 536870911) || isMessageSet)
 
+/-- `FieldRanges.CheckValid`: `case !(r[0] < r[1])` (the stored pair, so that a wrapping `End()` cannot pass). -/
 def fieldCheckValid (isMessageSet : Bool) (rs : List Rng) : Bool :=
-  checkLoop fieldEnd (isValidFieldNumber isMessageSet) none (sortByStart rs)
+  checkLoop fieldEnd (isValidFieldNumber isMessageSet) (fun r => decide (r.start < r.stop)) none (sortByStart rs)
 
 /-! ## Go maps written once by `lazyInit` -/
 
@@ -128,19 +131,12 @@ def byKeyFirst {α κ} [DecidableEq κ] (keysOf : α → List κ) (l : List α) 
 /-- `Get(i)` (`&p.List[i]`; out of range panics in Go = `none`). -/
 def getAt {α} (l : List α) (i : Nat) : Option α := l[i]?
 
-/-! ## `OneofFields`: unconditional assignment (last-wins, as coded) -/
-
-def buildLastFrom {α κ} [DecidableEq κ] (keyOf : α → κ) :
-    Nat → List α → Tbl κ Nat → Tbl κ Nat
-  | _, [], m => m
-  | i, f :: fs, m => buildLastFrom keyOf (i + 1) fs (m.set (keyOf f) i)
-
-def buildLast {α κ} [DecidableEq κ] (keyOf : α → κ) (l : List α) : Tbl κ Nat :=
-  if l.isEmpty then Tbl.empty else buildLastFrom keyOf 0 l Tbl.empty
+/-! ## `OneofFields`: one key per member and table, inserted only if absent (first-wins, like the
+generated lists; no lower-cased alias keys) -/
 
 /-- `OneofFields.ByName`/`ByJSONName`/`ByTextName`/`ByNumber`: index into `OneofFields.List`. -/
-def byKeyLast {α κ} [DecidableEq κ] (keyOf : α → κ) (l : List α) (k : κ) : Option Nat :=
-  (buildLast keyOf l).get k
+def byKeyOneof {α κ} [DecidableEq κ] (keyOf : α → κ) (l : List α) (k : κ) : Option Nat :=
+  byKeyFirst (fun d => [keyOf d]) l k
 
 /-! ## `Names` (count map) and `FieldNumbers` (set) -/
 
